@@ -1354,6 +1354,14 @@ ares_status_t ares_send_query(ares_server_t *requested_server,
   query->conn = conn;
   conn->total_queries++;
 
+  /* The event thread chose how long to sleep before this deadline existed, and
+   * a query written on an idle connection changes no socket interest that
+   * would wake it: tell it when this query is now the first to expire */
+  if (ares_slist_node_first(channel->queries_by_timeout) ==
+      query->node_queries_by_timeout) {
+    ares_event_thread_wake_channel(channel);
+  }
+
   /* We just successfully enqueud a query, see if we should probe downed
    * servers. */
   if (probe_downed_server) {
